@@ -152,6 +152,14 @@ func (apifuzz) Generate(rng *Rand, prop, tier string) *Script {
 		switch x := rng.Intn(100); {
 		case x < 10:
 			s.Ops = append(s.Ops, Op{K: "cstate", A: int64(rng.Intn(4)), B: int64(rng.Intn(3))})
+		case x < 14 && rng.Bool(50):
+			// a replica process is replaced by a new one under the same address and the volume is asked to start
+			// with it (or with what is left) right away: the controller meets a replica that is not open
+			if rng.Bool(60) {
+				s.Ops = append(s.Ops, Op{K: "cstate", A: 0, B: 7})
+			}
+			s.Ops = append(s.Ops, Op{K: "cstate", A: 1, B: 7})
+			s.Ops = append(s.Ops, Op{K: "req", A: 1, B: 4, C: 0, D: 7, S: "0", F: rng.Bool(30), E: int64(rng.Intn(600))})
 		case x < 16 && s.Cfg["rf"] >= 2:
 			// a replica is restarted and its rebuild held for half a simulated minute: the requests that follow meet
 			// a controller with a WO (rebuilding) replica attached
